@@ -304,6 +304,9 @@ class Unit:
         text = splice.normalise(item, self.features, self.cfg_log)
         rules = it.get("desugar", [])
         approx = False
+        hoisted = []
+        if "R-SPAWN" in rules:
+            text, hoisted = splice.hoist_spawn(text, it.get("spawn", []))
         if rules:
             before_lines = text.count("\n")
             text = splice.desugar(text, rules, self.desugar_counts)
@@ -323,6 +326,32 @@ class Unit:
                 raise SpliceError("trait_fn items are emitted through kind=trait")
             seg = self._splice(text, it, file, item.line_start, approx, role, fn_id, is_twin)
             seg.render(gen)
+            if not is_twin:
+                for (cfg, htext, line_off) in hoisted:
+                    # the hoisted task body is verified like any other function of the unit, under its declared contract
+                    if rules:
+                        htext = splice.desugar(htext, [r for r in rules if r not in ("R-SPAWN", "R-REC")], {})
+                    if "R-REC" in rules:
+                        htext, _ = splice._r_rec(htext, splice.FnShape(text).name)
+                    hit = dict(cfg)
+                    hit["path"] = it["path"].rsplit("::", 1)[0] + "::" + cfg["name"]
+                    hit["kind"] = it["kind"]
+                    gen.add("// ---- R-SPAWN: body of the task spawned in %s, hoisted verbatim" % path, ("gen", "item-header"))
+                    hid = hit["path"].replace("::", ".")
+                    hseg = self._splice(htext, hit, file, item.line_start + line_off, True, "verify", hid, False)
+                    hseg.render(gen)
+                if "R-REC" in rules and role == "verify":
+                    rit = {k: v for k, v in it.items() if k in ("requires", "ensures", "ret", "path", "kind")}
+                    # a precondition marked entry_only is about machine arithmetic at the entry call (e.g. a depth counter) and is
+                    # not part of the induction hypothesis; it is reported as an assumption of the unit
+                    rit["requires"] = [c for c in rit.get("requires", []) if not (isinstance(c, dict) and c.get("entry_only"))]
+                    rit["rename"] = splice.FnShape(text).name + "__rec"
+                    rit["proved_by"] = ""
+                    gen.add("// ---- R-REC: induction hypothesis for the recursive calls (same contract; termination not proved)", ("gen", "item-header"))
+                    saved = list(self.obligations)
+                    rseg = self._splice(splice.normalise(item, self.features, []), rit, file, item.line_start, True, "rec", fn_id, False)
+                    self.obligations = saved
+                    rseg.render(gen)
             if it["kind"] == "impl_fn" and not it.get("as_free_fn"):
                 gen.add("}", ("gen", "impl-close"))
 
@@ -381,13 +410,13 @@ class Unit:
             spec_lines.append(("    decreases " + it["decreases"] + ",", ("clause", fn_id, "D", "decreases")))
         if it.get("opens_invariants"):
             spec_lines.append(("    opens_invariants " + it["opens_invariants"], ("gen", "kw")))
-        if role == "stub":
+        if role in ("stub", "rec"):
             if not sh.has_body:
                 raise SpliceError("stub of bodyless fn")
             # body replaced; contract assumed
             mt = re.search(r"\S", text)
             seg.insert(mt.start(), "#[verifier::external_body]" + (" // contract proved by " + it["proved_by"] if it.get("proved_by") else ""),
-                       ("gen", ("proved-elsewhere:" if it.get("proved_by") else "assumed-contract:") + fn_id))
+                       ("gen", ("rec-hypothesis:" if role == "rec" else "proved-elsewhere:" if it.get("proved_by") else "assumed-contract:") + fn_id))
             for (ln, tag) in spec_lines:
                 seg.insert(sh.sig_end, ln, tag if tag[0] != "clause" else ("assumed-clause", fn_id, tag[2], tag[3]))
             # drop the body: replace by unimplemented!()
@@ -437,7 +466,15 @@ class Unit:
         # proof blocks
         for pb in it.get("proof_at", []):
             off = self._pos(sh, pb["pos"], name)
-            seg.insert(off, pb["text"].rstrip("\n"), ("proof", fn_id, pb["pos"]))
+            if pb.get("id"):
+                # a spliced assertion that restates a contract clause at a point where the needed values are in scope: an
+                # obligation of its own (kind A), so that its failure is reported like the clause's
+                seg.insert(off, pb["text"].rstrip("\n"), ("clause", fn_id, "A", pb["id"]))
+                if not is_twin:
+                    self.obligations.append(Obligation("%s#%s" % (pre, pb["id"]), "A", fn_id, pb.get("alarm", []),
+                                                       "spliced assertion at %s" % pb["pos"].split(":")[0]))
+            else:
+                seg.insert(off, pb["text"].rstrip("\n"), ("proof", fn_id, pb["pos"]))
         return seg
 
     def _pos(self, sh, pos, name):
@@ -490,6 +527,17 @@ class Unit:
             if sh.m[e] != "}":
                 raise SpliceError("%s: %s: statement does not end with a block" % (name, pos))
             return e
+        mt = re.match(r"^(before|after):(\d+):(.+)$", pos, re.S)
+        if mt:
+            # the N-th occurrence of a literal piece of the source text inside the body (nested blocks included); if the text is
+            # edited the anchor is lost (undecided), never silently moved
+            lit, k = mt.group(3), int(mt.group(2))
+            at = sh.body_open
+            for _ in range(k):
+                at = sh.text.find(lit, at + 1)
+                if at < 0 or at > sh.body_close:
+                    raise SpliceError("%s: %s: text not found" % (name, pos))
+            return at if mt.group(1) == "before" else at + len(lit)
         mt = re.match(r"^marker:([\w.]+)$", pos)
         if mt:
             # positions defined by a desugaring template (markers are comments inside the generated template text)
